@@ -280,12 +280,26 @@ func mapMergeText(before, written string) string {
 	return "(" + strings.Join(es, ",") + ")"
 }
 
-// displaced: p runs through a oneof member that was populated before and whose oneof now holds a
-// different member that the write touched — clearing it is inherent in assigning the other member.
-func (c wcase) displaced(before, after protoreflect.Message, p []string) bool {
-	cb, ca := before, after
+// displaced: p runs through a oneof member that was populated before, and the written message holds
+// (at the same place) a different member of that oneof which the write assigns (related to the
+// update mask and to the writable fields) — clearing the old member is inherent in assigning the
+// other one, even if a reset mask clears the new member afterwards.
+func (c wcase) displaced(before, written protoreflect.Message, p []string) bool {
+	W := c.effW()
+	relatedTo := func(m mt.Mask, q []string) bool {
+		if m.Nil {
+			return true
+		}
+		for _, x := range m.Paths {
+			if mt.Related(mt.Segs(x), q) {
+				return true
+			}
+		}
+		return false
+	}
+	cb, cw := before, written
 	for i, s := range p {
-		if cb == nil || ca == nil || !cb.IsValid() || !ca.IsValid() {
+		if cb == nil || cw == nil || !cb.IsValid() || !cw.IsValid() {
 			return false
 		}
 		fd := cb.Descriptor().Fields().ByName(protoreflect.Name(s))
@@ -293,22 +307,17 @@ func (c wcase) displaced(before, after protoreflect.Message, p []string) bool {
 			return false
 		}
 		if o := mt.RealOneof(fd); o != nil && cb.Has(fd) {
-			if now := ca.WhichOneof(o); now != nil && now.Name() != fd.Name() {
+			if now := cw.WhichOneof(o); now != nil && now.Name() != fd.Name() {
 				q := append(append([]string{}, p[:i]...), string(now.Name()))
-				if c.M.Nil {
+				if relatedTo(c.M, q) && relatedTo(W, q) {
 					return true
-				}
-				for _, m := range c.M.Paths {
-					if mt.Related(mt.Segs(m), q) {
-						return true
-					}
 				}
 			}
 		}
-		if fd.Message() == nil || fd.IsList() || fd.IsMap() || !cb.Has(fd) || !ca.Has(fd) {
+		if fd.Message() == nil || fd.IsList() || fd.IsMap() || !cb.Has(fd) || !cw.Has(fd) {
 			return false
 		}
-		cb, ca = cb.Get(fd).Message(), ca.Get(fd).Message()
+		cb, cw = cb.Get(fd).Message(), cw.Get(fd).Message()
 	}
 	return false
 }
@@ -325,6 +334,7 @@ func (c wcase) monitor(mon *lib.Monitor, out wout) {
 
 	// classify the update mask independently of fieldmaskpb
 	unknown, outside := "", ""
+	var outsideAll []string
 	if !c.M.Nil {
 		for _, m := range c.M.Paths {
 			pi := mt.Classify(md, m)
@@ -341,6 +351,7 @@ func (c wcase) monitor(mon *lib.Monitor, out wout) {
 				}
 				if !rel {
 					outside = m
+					outsideAll = append(outsideAll, m)
 				}
 			}
 		}
@@ -411,14 +422,18 @@ func (c wcase) monitor(mon *lib.Monitor, out wout) {
 				ms := mt.Segs(m)
 				if mt.IsPrefix(ms, p) && !covered(W, p) {
 					class = "update-path-wider-than-writable"
-					if outside == m {
-						class = "read-only-path-accepted"
-					}
 				}
 				for i := 1; i < len(ms); i++ {
 					if mt.IsPrefix(ms[:i], p) && !mt.IsPrefix(ms, p) && !hasMsgAt(written, ms[:i]) {
 						class = "nested-path-under-message-absent-from-written"
 					}
+				}
+			}
+			// an accepted read-only path is filtered out of the written message and then cleared
+			// from the stored one together with what surrounds it
+			for _, m := range outsideAll {
+				if mt.Segs(m)[0] == p[0] {
+					class = "read-only-path-accepted"
 				}
 			}
 		}
@@ -445,7 +460,7 @@ func (c wcase) monitor(mon *lib.Monitor, out wout) {
 			continue
 		}
 		if !(covered(c.M, p) && covered(W, p)) {
-			if a == b || c.displaced(before, after, p) {
+			if a == b || c.displaced(before, written, p) {
 				continue
 			}
 			if cl := frameClass(p); cl == "other" && overlap {
@@ -484,7 +499,7 @@ func (c wcase) monitor(mon *lib.Monitor, out wout) {
 				want = "" // the message the mask names is absent from the written message: cleared
 			}
 		}
-		if a != want && !c.displaced(before, after, p) {
+		if a != want && !c.displaced(before, written, p) {
 			class := "/inside/" + kind
 			if overlap {
 				class = "/parent-and-child-paths/inside/" + kind
@@ -517,7 +532,7 @@ func (c wcase) monitor(mon *lib.Monitor, out wout) {
 		if touched || (c.M.Nil && W.Nil) {
 			continue
 		}
-		if hasMsgAt(before, p) != hasMsgAt(after, p) && !c.displaced(before, after, p) {
+		if hasMsgAt(before, p) != hasMsgAt(after, p) && !c.displaced(before, written, p) {
 			mon.Violate(site+"/frame/"+frameClass(p)+"/message-presence", "presence of message "+k+" changed although no mask path is related to it", c, fmt.Sprint(hasMsgAt(before, p)), fmt.Sprint(hasMsgAt(after, p)))
 		}
 	}
@@ -656,8 +671,6 @@ func runCases(cases []wcase, tie *lib.Tie, mon *lib.Monitor, drv *lib.Driver) {
 
 // seeded cases: the witnesses of the `_fails` theorems and of the findings, smallest first
 func seededCases() []wcase {
-	fm := func(c, d int32) string { return fmt.Sprintf("c=%d d=%d", c, d) }
-	_ = fm
 	var out []wcase
 	mk := func(site string, W, M mt.Mask, dst, src proto.Message) wcase {
 		return wcase{Root: "TestAllTypes", Site: site, W: W, More: mt.NilMask(), M: M, R: mt.NilMask(),
@@ -677,6 +690,10 @@ func seededCases() []wcase {
 			// duplicate update path
 			mk(site, paths("default_int32"), paths("default_int32", "default_int32"), seedStored(), seedWrittenForeign()),
 		)
+		// nothing writable + reset mask
+		nw := mk(site, mt.Mask{Paths: []string{}}, mt.NilMask(), seedStored(), seedWrittenNoForeign())
+		nw.R = paths("default_int32")
+		out = append(out, nw)
 	}
 	return out
 }
